@@ -77,10 +77,12 @@ def callable_name(func: Callable[..., Any]) -> str:
         # A callable object (an instance of a class with a __call__() method)
         func = type(func)
 
-    if func.__module__ == "builtins":
+    # Method wrappers of built-in types (e.g. iterator.__next__) have no __module__
+    module = getattr(func, "__module__", "builtins")
+    if module == "builtins":
         return func.__name__
     else:
-        return f"{func.__module__}.{func.__qualname__}"
+        return f"{module}.{func.__qualname__}"
 
 
 def merge_config(
